@@ -402,3 +402,22 @@ zdc! {
     r1p_zst_drop_collect_unique_exact_n1 1, true, true;
     r2p_zst_drop_collect_arc_loose_n0 0, false, false;
 }
+
+// a zero-sized HEADER that has a destructor: moved into the allocation once, destroyed with it once
+#[kani::proof]
+#[kani::unwind(6)]
+#[kani::stub(std::alloc::alloc, alloc_stub)]
+#[kani::stub(alloc::alloc::dealloc_nonnull, dealloc_stub)]
+fn q_zst_header_with_destructor() {
+    crate::ghost::arm();
+    let x: u8 = kani::any();
+    let a = Arc::from_header_and_slice(ZstD::make(), &[x, 2u8][..]);
+    assert!(unsafe { ZD_DROPS == 0 }, "a zero-sized header was destroyed by the constructor");
+    assert!(a.slice[0] == x && a.slice.len() == 2);
+    drop(a);
+    assert!(unsafe { ZD_DROPS == 1 }, "a zero-sized header is destroyed exactly once, with the allocation");
+    let b = Arc::from_header_and_str(ZstD::make(), "ab");
+    assert!(unsafe { ZD_DROPS == 1 });
+    drop(b);
+    assert!(unsafe { ZD_DROPS == 2 } && n_live() == 0);
+}
